@@ -377,3 +377,85 @@ func runE10(c *core.Ctx) {
 		c.OK(cn, fd.Pos(), "%d use(s) of Decoder.Pos(), all under `err == nil`", n)
 	}
 }
+
+// W13: output that bypasses the compiled program ignores every option bit.
+func init() {
+	register(&core.Rule{ID: "W13", Min: 2,
+		Doc: "Both EncodeTypedPointer twins (internal/encoder/vm and internal/encoder/x86) write output themselves - a call of prim.EncodeNil - only in the arm of `if vt == nil` (the untyped nil). Every typed value, a nil pointer or nil map included, goes through the compiled program, which is where the option bits (NoNullSliceOrMap: a nil map is `{}`) and the type's marshalers are honoured.",
+		Run: runW13})
+}
+
+func runW13(c *core.Ctx) {
+	p := c.Prog
+	for _, rel := range []string{"internal/encoder/vm", "internal/encoder/x86"} {
+		pk := p.Pkg(rel)
+		fd := core.FuncDecl(pk, "", "EncodeTypedPointer")
+		cn := rel + ".EncodeTypedPointer/direct-output"
+		if fd == nil || fd.Body == nil {
+			if p.GOARCH != "amd64" && rel == "internal/encoder/x86" {
+				continue
+			}
+			c.Undecided(cn, token.NoPos, "not found")
+			continue
+		}
+		c.Analysed(core.FuncName(pk, fd))
+		// the *rt.GoType parameter
+		var vt types.Object
+		for _, f := range fd.Type.Params.List {
+			for _, nm := range f.Names {
+				if o := p.ObjectOf(nm); o != nil && strings.HasSuffix(o.Type().String(), "rt.GoType") {
+					vt = o
+				}
+			}
+		}
+		isVtNil := func(e ast.Expr) bool {
+			be, ok := ast.Unparen(e).(*ast.BinaryExpr)
+			if !ok || be.Op != token.EQL {
+				return false
+			}
+			for _, pr := range [][2]ast.Expr{{be.X, be.Y}, {be.Y, be.X}} {
+				a, ok := ast.Unparen(pr[0]).(*ast.Ident)
+				b, ok2 := ast.Unparen(pr[1]).(*ast.Ident)
+				if ok && ok2 && vt != nil && p.ObjectOf(a) == vt && b.Name == "nil" {
+					return true
+				}
+			}
+			return false
+		}
+		n, bad := 0, token.NoPos
+		var walk func(nd ast.Node, untyped bool)
+		walk = func(nd ast.Node, untyped bool) {
+			ast.Inspect(nd, func(m ast.Node) bool {
+				switch x := m.(type) {
+				case *ast.IfStmt:
+					if x.Init != nil {
+						walk(x.Init, untyped)
+					}
+					walk(x.Cond, untyped)
+					walk(x.Body, isVtNil(x.Cond))
+					if x.Else != nil {
+						walk(x.Else, false)
+					}
+					return false
+				case *ast.CallExpr:
+					if p.IsCallTo(x, "internal/encoder/prim", "EncodeNil") {
+						n++
+						if !untyped && bad == token.NoPos {
+							bad = x.Pos()
+						}
+					}
+				}
+				return true
+			})
+		}
+		walk(fd.Body, false)
+		switch {
+		case bad != token.NoPos:
+			c.Bad(cn, bad, "EncodeTypedPointer writes `null` itself for a typed value: the compiled program is bypassed, so NoNullSliceOrMap (a nil map behind an interface must be `{}`) and the type's own marshalers are ignored on every dynamically dispatched route")
+		case n == 0:
+			c.OK(cn, fd.Pos(), "no direct output at all")
+		default:
+			c.OK(cn, fd.Pos(), "the only direct output is the untyped nil")
+		}
+	}
+}
